@@ -473,16 +473,19 @@ pub fn c09_monitor(ctx: &mut Ctx, o: &Outcome, tx: &Tx, _ring: &KeyRing) {
     };
     let red = tx.wfield(5);
     let dat = tx.wfield(4);
-    // spending redeemers point into the sorted input set: if inputs were added after the hash was
-    // computed, the hash was computed before "the last script item" in the sense that matters
+    // spending redeemers point into the sorted input set: an input added AFTER the hash was computed
+    // (a key input selected by the balancing call, say) shifts them. The quantifier admits exactly that
+    // ("computed after the last SCRIPT item was added"), so these histories are judged like the others;
+    // they are counted, because they are where a cached hash goes stale
     let has_spend = tx.redeemers().iter().any(|(t, _, _, _)| *t == 0);
+    let mut stale_class = "";
     if has_spend {
         let mut now = tx.inputs().unwrap_or_default();
         now.sort();
         now.dedup();
         if o.inputs_at_hash_time.as_ref() != Some(&now) {
-            ctx.bucket("skipped.inputs-changed-after-calc_script_data_hash-with-spend-redeemers");
-            return;
+            ctx.bucket("c09.inputs-changed-after-calc_script_data_hash-with-spend-redeemers");
+            stale_class = "/inputs-added-after-the-hash-was-computed";
         }
     }
     // languages in use: witness-set scripts plus declared reference scripts that are needed
@@ -524,7 +527,8 @@ pub fn c09_monitor(ctx: &mut Ctx, o: &Outcome, tx: &Tx, _ring: &KeyRing) {
     let body_hash = tx.field(11).and_then(|x| x.as_bytes());
     if red.is_none() && dat.is_none() && views.is_empty() {
         if body_hash.is_some() {
-            ctx.bucket("c09.script-data-hash-present-without-script-data");
+            // the ledger derives "no hash" from a witness set without redeemers, datums and languages
+            ctx.violation("built-tx/script-data-hash-present-without-script-data", detail(o));
         }
         return;
     }
@@ -544,7 +548,7 @@ pub fn c09_monitor(ctx: &mut Ctx, o: &Outcome, tx: &Tx, _ring: &KeyRing) {
             let mut d = detail(o);
             d["languages"] = json!(langs.iter().collect::<Vec<_>>());
             d["want"] = json!(hx(&want));
-            ctx.violation(&format!("built-tx/script-data-hash-differs-from-emitted-witness-set/{}", cls), d);
+            ctx.violation(&format!("built-tx/script-data-hash-differs-from-emitted-witness-set/{}{}", cls, stale_class), d);
         }
         None => ctx.violation(&format!("built-tx/script-data-hash-missing/{}", cls), detail(o)),
     }
